@@ -880,6 +880,16 @@ class PlayingStatusReactor(StatusReactor):
     def __init__(self, connection):
         super(PlayingStatusReactor, self).__init__(connection, do_ping=False)
 
+    def react(self, packet):
+        # Reacting to the status response ends this connection and begins the
+        # next one. The lock makes that atomic with respect to 'disconnect'
+        # called by another thread: if it has been called already, there is
+        # nothing left to react to, and otherwise it will find, and end, the
+        # connection begun here.
+        with self.connection._write_lock:
+            if self.connection.connected:
+                super(PlayingStatusReactor, self).react(packet)
+
     def handle_status(self, status):
         if status == {}:
             # This can occur when we connect to a Mojang server while it is
